@@ -21,6 +21,18 @@ _SAFE_BUILTINS = { 'str': str, 'int': int, 'len': len, 'max': max, 'min': min, '
                    'map': lambda f, *a: list( map( f, *a )), 'filter': lambda f, a: list( filter( f, a )), 'reversed': lambda a: list( reversed( a )) }
 
 
+def _call( f, args, kwargs ):
+    """a stand-in the rule supplied, called on folded arguments: a call it was not made for ( TypeError ... ) is "not foldable", not a crash"""
+    try:
+        return f( *args, **kwargs )
+    except NoFold:
+        raise
+    except RecursionError:
+        raise
+    except Exception as exc:
+        raise NoFold( 'stand-in call: %s' % exc )
+
+
 def fold( e, env=None ):
     """value of a constant expression; names looked up in env (dict or callable name -> value); raises NoFold"""
     if isinstance( e, ast.Constant ):
@@ -121,15 +133,24 @@ def fold( e, env=None ):
             base = None
         if isinstance( base, dict ):
             return base.get( *[ fold( a, env ) for a in e.args ] )
+    if isinstance( e, ast.Call ) and isinstance( e.func, ast.Attribute ) and e.func.attr in ( 'values', 'keys', 'items' ) and not e.keywords and not e.args:
+        try:
+            base = fold( e.func.value, env )
+        except NoFold:
+            base = None
+        if isinstance( base, dict ):
+            return list( getattr( base, e.func.attr )())
     if isinstance( e, ast.Dict ) and all( k is not None for k in e.keys ):
         return { fold( k, env ): fold( v, env ) for k, v in zip( e.keys, e.values ) }
-    if isinstance( e, ast.Call ) and isinstance( e.func, ast.Name ) and env is not None and not e.keywords:
+    if isinstance( e, ast.Call ) and isinstance( e.func, ast.Name ) and env is not None and all( k.arg for k in e.keywords ):
         # a callable the rule put into the environment under the callee's name ( a marking cast ), or a helper of the analysed file made
         # available as 'call:<name>' ( see helper_calls ): evaluated on the folded arguments
         for key in ( e.func.id, 'call:' + e.func.id ):
             f_ = _env_get( env, key )
             if f_ is not NoFold and callable( f_ ):
-                return f_( *[ fold( a, env ) for a in e.args ] )
+                return _call( f_, [ fold( a, env ) for a in e.args ], { k.arg: fold( k.value, env ) for k in e.keywords } )
+    if isinstance( e, ast.Call ) and isinstance( e.func, ast.Name ) and e.func.id == 'dict' and not e.args and all( k.arg for k in e.keywords ):
+        return { k.arg: fold( k.value, env ) for k in e.keywords }
     if isinstance( e, ast.Call ) and isinstance( e.func, ast.Attribute ) and env is not None and all( k.arg for k in e.keywords ):
         # a method the rule put into the environment under its dotted name ( 'self._back.pop' ): a marking stand-in, evaluated on the folded arguments
         from .core import dotted as _dotted
@@ -137,7 +158,7 @@ def fold( e, env=None ):
         if d_ is not None:
             f_ = _env_get( env, d_ )
             if f_ is not NoFold and callable( f_ ):
-                return f_( *[ fold( a, env ) for a in e.args ], **{ k.arg: fold( k.value, env ) for k in e.keywords } )
+                return _call( f_, [ fold( a, env ) for a in e.args ], { k.arg: fold( k.value, env ) for k in e.keywords } )
     if isinstance( e, ast.Call ) and isinstance( e.func, ast.Name ) and e.func.id in _SAFE_BUILTINS and _SAFE_BUILTINS[e.func.id] is not None and not e.keywords:
         args = [ fold( a, env ) for a in e.args ]
         try:
@@ -317,6 +338,24 @@ def run_block( stmts, env, ignore_calls=(), stop_at_yield=True ):
             out = run_block( st.body if fold( st.test, env ) else st.orelse, env, ignore_calls, stop_at_yield )
             if out.kind != 'fall':
                 return out
+            continue
+        if isinstance( st, ast.For ) and not st.orelse:
+            # a loop over a folded, finite sequence ( a table of fields ): the body is run once per item
+            seq = fold( st.iter, env )
+            if isinstance( seq, dict ):
+                seq = list( seq )
+            if not isinstance( seq, ( list, tuple, str, bytes )) or len( seq ) > 4096:
+                raise NoFold( 'loop over %r' % type( seq ).__name__ )
+            done = None
+            for item in seq:
+                _store( st.target, item, env )
+                out = run_block( st.body, env, ignore_calls, stop_at_yield )
+                if out.kind == 'break':
+                    break
+                if out.kind not in ( 'fall', 'continue' ):
+                    done = out; break
+            if done is not None:
+                return done
             continue
         if isinstance( st, ast.Assert ):
             if not fold( st.test, env ):
